@@ -151,7 +151,7 @@ def judge(ctx, vc, cases, label, base_id=0, key_suffix=""):
             raise Machinery("no contour could be observed")
         ctx.log(f"{label}: nothing to judge ({empty} empty selections skipped)")
         return []
-    failing = ctx.validate("Trace_C02", "Trace_C02.cfg", recs, xss=XSS, chunk=ctx.pick(60, 40))
+    failing = ctx.validate("Trace_C02", "Trace_C02.cfg", recs, xss=XSS, chunk=ctx.pick(400, 40))
     nwarn = 0
     for case, rec, info in kept:
         nontrivial = (not rec["exc"]) and (not rec["warned"]) and info["n_in"] >= 4 and info["n_in"] < info["n"]
@@ -336,8 +336,8 @@ def run(ctx):
     ctx.rule = (
         "TLC enumerates the configuration classes of a contour (spec/HDCGen.tla: 2-D/3-D, every admissible "
         "conditional_on structure, deltas scalar/list/default, limits explicit/reversed/default, cell-size ratio "
-        "1/3/10, grid fit/small/cut, alpha class); quick runs a seeded selection of 60 classes + 1 default-deltas "
-        "contour (401 cells/axis), thorough every fit/cut class (fit twice), every 4th small class + 5 default-deltas + 4 grids of 300-400 cells/axis + 2 3-D "
+        "1/3/10, grid fit/small/cut, alpha class); quick runs a seeded selection of 60 classes (+ 1 default-deltas "
+        "contour, 401 cells/axis, on even seeds), thorough every fit/cut class (fit twice), every 4th small class + 5 default-deltas + 4 grids of 300-400 cells/axis + 2 3-D "
         "grids of 50-60 cells/axis.  Each class is instantiated with a seeded random model over the 7 shipped "
         "families (marginal or conditional with dependence functions) and a grid derived from the model's "
         "quantiles.  Additionally TLC enumerates every array P in [1..n -> 0..v] and limit L (n=4,v=3 quick; n=5,v=3 "
@@ -378,9 +378,10 @@ def run(ctx):
         "({f > fm} inside, region inside {f >= fm}) - no clause depends on how ties are split",
     ]
     # M
-    for cfg in ctx.pick(("MC_HDC_sel_quick.cfg", "MC_HDC_sel_quick2.cfg"),
-                        ("MC_HDC_sel_quick.cfg", "MC_HDC_sel_thorough0.cfg", "MC_HDC_sel_thorough.cfg",
-                         "MC_HDC_sel_wide.cfg")):
+    # quick: the 5-cell array domain on even seeds, the 2 x 3 grid domain on odd seeds (both in thorough)
+    for cfg in ctx.pick((("MC_HDC_sel_quick.cfg", "MC_HDC_sel_quick2.cfg")[ctx.seed % 2],),
+                        ("MC_HDC_sel_quick.cfg", "MC_HDC_sel_quick2.cfg", "MC_HDC_sel_thorough0.cfg",
+                         "MC_HDC_sel_thorough.cfg", "MC_HDC_sel_wide.cfg")):
         ctx.model_check("HDC", cfg, must_cover=("Sort", "Accumulate", "Select", "Warn", "Erode", "Label"),
                         timeout=3000)
     # cells ordered by a key (density) while the probabilities P = key div 2 are accumulated; ordering by P
@@ -400,7 +401,9 @@ def run(ctx):
     # R
     cfgs = ctx.generate("HDCGen", "Gen_HDC.cfg")
     ctx.notes["configuration_classes"] = len(cfgs)
-    cases = contour_cases(ctx, vc, cfgs)
+    # quick: the ordinary 401 x 401 default-deltas contour on even seeds only (default deltas are also in the
+    # negative-default-limit class, which every run has)
+    cases = contour_cases(ctx, vc, cfgs, n_default_quick=1 - ctx.seed % 2)
     sel_cases = ctx.generate("HDCGen", ctx.pick("Gen_HDC_sel_quick.cfg", "Gen_HDC_sel_thorough.cfg"), xss=XSS)
     if not ctx.quick:
         sel_cases += ctx.generate("HDCGen", "Gen_HDC_sel_thorough2.cfg", xss=XSS)
@@ -418,27 +421,36 @@ def run(ctx):
         nf = [nf[(ctx.seed + j) % 3] for j in range(1)] + nf[3:6] + nf[7:]
     extra += nf
     extra += H.integer_grid_cases(vc, np.random.default_rng(ctx.seed * 59 + 10), cfgs, ctx.pick(10, 60))
-    kept_x = judge(ctx, vc, extra, "decimal cell sizes / ties / negative default limits / integer grids",
-                   base_id=150000)
-    ctx.notes["decimal_delta_and_default_limit_contours"] = len(kept_x)
     # hidden state between contours: look-alike models back to back on one grid (A, B, A), and the
     # cheap ordinary contours a second time in reverse order
     twins = H.twin_cases(vc, np.random.default_rng(ctx.seed * 31 + 5), cfgs, ctx.pick(8, 40))
-    kept_tw = judge(ctx, vc, twins, "look-alike model pairs (A, B, A) on one grid", base_id=200000)
-    ctx.notes["twin_contours"] = len(kept_tw)
-    again = [c for c, r, i in reversed(kept) if not r["exc"] and i["n"] <= 6000][: ctx.pick(40, 300)]
-    judge(ctx, vc, again, "second evaluation in reverse order", base_id=250000, key_suffix=" second-evaluation")
-    ctx.notes["second_evaluations"] = len(again)
     # model histories: contour, in-place change of the model object (attribute, dependence parameter,
     # distribution.fit, dependence re-fit, replaced distribution), contour on the same grid
     hist = H.history_cases(vc, np.random.default_rng(ctx.seed * 67 + 14), cfgs, ctx.pick(10, 60))
-    kept_h = judge(ctx, vc, hist, "contours of a model object changed in place after an earlier contour",
-                   base_id=270000)
-    ctx.notes["model_history_contours"] = len(kept_h)
     near = near_limit_cases(ctx, vc, cfgs)
-    kept_near = judge(ctx, vc, near, "grids with total just below / above 1 - alpha", base_id=100000)
-    ctx.notes["near_limit_contours"] = len(kept_near)
-    ctx.notes["near_limit_warned"] = sum(1 for _, r, _ in kept_near if r["warned"])
+    again = [c for c, r, i in reversed(kept) if not r["exc"] and i["n"] <= 6000][: ctx.pick(24, 300)]
+    groups = [("decimal cell sizes / ties / negative default limits / narrow floats / integer grids", extra, 150000),
+              ("look-alike model pairs (A, B, A) on one grid", twins, 200000),
+              ("contours of a model object changed in place after an earlier contour", hist, 270000),
+              ("grids with total just below / above 1 - alpha", near, 100000)]
+    if ctx.quick:   # one TLC run for all of them
+        groups = [("special classes: " + "; ".join(g[0] for g in groups), [c for g in groups for c in g[1]], 100000)]
+    kept_s = []
+    for label, cs, base in groups:
+        kept_s += judge(ctx, vc, cs, label, base_id=base)
+    judge(ctx, vc, again, "second evaluation in reverse order", base_id=400000, key_suffix=" second-evaluation")
+
+    def count(pred):
+        return sum(1 for c, r, i in kept_s if pred(c, r))
+    ctx.notes["twin_contours"] = count(lambda c, r: c["cfg"].get("grid") == "twin")
+    ctx.notes["model_history_contours"] = count(lambda c, r: "history" in c)
+    ctx.notes["near_limit_contours"] = count(lambda c, r: c["cfg"].get("grid") == "near")
+    ctx.notes["near_limit_warned"] = count(lambda c, r: c["cfg"].get("grid") == "near" and r["warned"])
+    ctx.notes["narrow_float_contours"] = count(lambda c, r: "typed" in c)
+    ctx.notes["integer_grid_contours"] = count(lambda c, r: c["cfg"].get("grid") == "integer")
+    ctx.notes["other_special_contours"] = count(lambda c, r: c["cfg"].get("grid") in ("decimal", "ties", "tiecut",
+                                                                                        "negdefault"))
+    ctx.notes["second_evaluations"] = len(again)
     self_test(ctx)
     ok = [k for k in kept if not k[1]["exc"]]
     if ok:
